@@ -33,6 +33,7 @@ ANY, UNKNOWN = T('any', {'t': 'any'}), T('unknown', {'t': 'any'})
 # depends on it.  0 = plain; 1 = rewritten (reordered members/properties/declarations, extra aliases and generic wrappers, parentheses,
 # readonly, comments/JSDoc, interface <-> object type, T[] <-> Array<T>)
 STYLE = {'v': 0, 'n': 0}
+ALL_DEFS = {}     # expected meaning of every named recursive type generated so far (names are unique)
 
 
 def _rw():
@@ -68,7 +69,7 @@ def union(*ts):
         lits = [x for t in ts for x in t.lits]
     if _rw():
         STYLE['n'] += 1
-        body = '\n  | '.join((f'/** member {i} */ ' if STYLE['n'] % 2 == 0 else '') + t.ts for i, t in enumerate(ts))
+        body = '\n  | '.join((f'\n  /** member {i} */\n  ' if STYLE['n'] % 2 == 0 else '') + t.ts for i, t in enumerate(ts))
     else:
         body = ' | '.join(t.ts for t in ts)
     text, decls = _wrap('(' + body + ')', [d for t in ts for d in t.decls])
@@ -90,7 +91,7 @@ def tup(items, rest=None):
 
 def obj(props, index=None):
     if _rw():
-        parts = [f'/** doc for {k} */ readonly {json.dumps(k)}{"?" if opt else ""}: {t.ts}' for k, (t, opt) in reversed(list(props.items()))]
+        parts = [f'\n  /** doc for {k} */\n  readonly {json.dumps(k)}{"?" if opt else ""}: {t.ts}' for k, (t, opt) in reversed(list(props.items()))]
         if index is not None:
             parts.insert(0, f'[key: string]: {index.ts}')
     else:
@@ -253,7 +254,25 @@ def recursive_tree():
     spec = {'t': 'ref', 'name': name}
     t = T(name, spec, [f'type {name} = {{ v: number; kids: Array<{name}>; parent?: {name} | null }};'])
     t.defs = {name: O({'v': N, 'kids': {'t': 'array', 'x': spec}, 'parent': OPT({'t': 'anyof', 'xs': [spec, NULL]})})}
+    ALL_DEFS.update(t.defs)
     return t
+
+
+def recursive_person_team():
+    pn, tn = fresh('Person'), fresh('Team')
+    pref = {'t': 'ref', 'name': pn}
+    doc = '\n  /** documented */\n  ' if _rw() else ''
+    t = T(tn, O({'owner': pref, 'members': {'t': 'array', 'x': pref}}),
+          [f'type {pn} = {{ name: string; {doc}parent?: {pn} }};', f'type {tn} = {{ {doc}owner: {pn}; members: Array<{pn}> }};'])
+    t.defs = {pn: O({'name': S, 'parent': OPT(pref)})}
+    ALL_DEFS.update(t.defs)
+    return t
+
+
+def shared_leaf():
+    ln = fresh('Leaf')
+    leaf = T(ln, O({'id': S, 'n': OPT(N)}), [f'type {ln} = {{ id: string; n?: number }};'])
+    return obj({'a': (arr(leaf), False), 'b': (arr(leaf), False), 'c': (leaf, True)})
 
 
 def programs(tier, rng, style=0):
@@ -303,6 +322,7 @@ def programs(tier, rng, style=0):
             obj({'p': (tup([NUMBER, NUMBER]), False), 'q': (tup([NUMBER, NUMBER, NUMBER]), False)}), obj({'p': (tup([STRING, NUMBER]), False), 'q': (tup([NUMBER, STRING]), True)}),
             tup([tup([lit(1), lit('a')]), tup([lit('a'), lit(1)])]), obj({'s': (union(lit('x'), lit('y'), lit('z')), False), 't': (union(lit('z'), lit('y')), True)}),
             obj({'a-b': (STRING, True), 'c d': (NUMBER, False), '1x': (BOOLEAN, True)}), obj({'a.b': (STRING, False)}, index=STRING),
+            recursive_person_team(), shared_leaf(), arr(recursive_tree()), tup([recursive_tree(), recursive_tree()]),
             tup([]), tup([STRING], rest=NUMBER), tup([], rest=BOOLEAN), obj({}), obj({}, index=NUMBER), obj({'a': (STRING, False)}, index=union(STRING, NUMBER))]
     return out
 
@@ -327,7 +347,7 @@ def main(tier):
         except Inconclusive as e:
             skipped.append((t.ts[:80], str(e)[:160]))
             continue
-        defs = getattr(t, 'defs', {})
+        defs = ALL_DEFS
         job = valcheck.make_job(name, t.spec, defs, PID, tier, module=paths['inst'], parser=f'Root{i}', hostile=('index-sig' in valcheck.spec_features(t.spec, defs)))
         job['expected'] = t.spec
         job['expectedDefs'] = defs
